@@ -223,5 +223,19 @@ func typedTargeted(repU *Report, wU *CaseWriter, r *rand.Rand) {
 			}
 		}
 		wU.add(fmt.Sprintf("UnmarshalCase %s %s %s %s %s %s %s", coqOpts(false, false, false), reg, tyS, "(zero "+tyS+")", coqTokens(p.ts), floatTable(p.ts), uobs(back, eU)), desc, true)
+		if p.t == anyType {
+			// C11 on the canonical streams among the hand-made ones (in the domain, keys ascending): must be
+			// accepted and lossless; the others are decided by the model (rejection with the stated error)
+			// (hand-made streams with a type name are not canonical for the registered type in general -
+			// [TypeName RegInt; Int 1] - so they are left to the model; registered names are exercised by the
+			// streams marshalled from registered catalogue types)
+			hasName := false
+			for _, tk := range p.ts {
+				hasName = hasName || tk.Kind == sb.KindTypeName
+			}
+			if asc, _ := mapKeysAscending(p.ts); asc && !hasName && inSchemalessDomain(p.ts) {
+				anyOracle(repU, p.ts, "any: "+desc, true)
+			}
+		}
 	}
 }
